@@ -93,8 +93,6 @@ AllLaws ==
 AsBuiltShapeStrict == \A f \in InjFns : Shape(MapNestedAsBuilt(f, v)) = Shape(v)
 ShapeLawAnyF == \A f \in AnyFns : Shape(MapNested(f, v)) = Shape(v)
 
-WellFormedOnly == WellFormed(v)
-
 Emit == EmitOn =>
   PrintT("TREE " \o ToJson([v |-> v, l |-> IterLeaves(v), m |-> MapNested(EmitF, v),
                             c |-> MapNested(ConstF, v), d |-> SetToSeq(Devs(v))]))
